@@ -62,9 +62,14 @@ type Mut struct {
 	// earlier incarnation of this very output (restored at TXID 1, then written to).
 	// cancel: the restore's context is cancelled when the LAST plan file's stream reaches EOF (+ delay): all
 	// downloads are complete, only the post-restore integrity check can see the cancellation
-	CancelDelayUS int    `json:"cancel_delay_us,omitempty"`
-	WalKind       string `json:"wal_kind,omitempty"` // foreign | own
-	WithShm       bool   `json:"with_shm,omitempty"`
+	CancelDelayUS int `json:"cancel_delay_us,omitempty"`
+	// legacy: v0.3.x-layout replica; one snapshot / WAL segment file is deleted, truncated or flipped on a
+	// copy, restored through Replica.Restore ("restore") or Replica.RestoreV3 ("v3")
+	LegacyOp   string `json:"legacy_op,omitempty"`
+	LegacyFile string `json:"legacy_file,omitempty"`
+	Entry      string `json:"entry,omitempty"`
+	WalKind    string `json:"wal_kind,omitempty"` // foreign | own
+	WithShm    bool   `json:"with_shm,omitempty"`
 }
 
 type RestoreCase struct {
@@ -288,6 +293,9 @@ func doRestore(q workerReq) workerResp {
 	m := q.Mut
 	if strings.HasPrefix(m.Kind, "disk-") {
 		return doDiskRestore(q, out)
+	}
+	if m.Kind == "legacy" {
+		return doLegacyRestore(q, out)
 	}
 	if m.Kind == "cancel" {
 		if len(q.Plan) == 0 {
@@ -560,6 +568,22 @@ func restoreOracle(m Mut, o restoreObs) string {
 		}
 		if o.Out != "pre" {
 			return "pre-existing output path was modified: " + o.Out
+		}
+		return ""
+	}
+	if m.Kind == "legacy" {
+		switch {
+		case o.Res == "ok" && m.MustErr != "":
+			return "Restore (" + m.Entry + ", legacy layout) returned nil although " + m.MustErr + " (restored state: " + o.Logical + ")"
+		case o.Res == "ok":
+			for _, w := range strings.Split(o.WantLogical, "\n") {
+				if w == o.Logical {
+					return ""
+				}
+			}
+			return fmt.Sprintf("Restore (%s, legacy layout) returned nil but the database is not a state the replica encodes after %s of %s: got {%s}, expected {%s}", m.Entry, m.LegacyOp, m.LegacyFile, o.Logical, o.WantLogical)
+		case o.Out != "absent":
+			return "Restore (" + m.Entry + ", legacy layout) returned an error (" + firstLine(o.Err) + ") and left a file at the output path: " + o.Out
 		}
 		return ""
 	}
